@@ -845,6 +845,10 @@ func RunFilter(spec filters.Spec, reqs []Req, obs *Obs, docs ...interface{}) {
 	}
 	serveFilter(f, spec, reqs, obs, "Handle")
 	Settle()
+	if _, ok := spec.(*proxy.Spec); ok {
+		// request durations over the whole range of the latency sampler (a request that takes minutes / hours)
+		Stage(obs, "handle", "collectMetrics durations", func() { proxy.VerifC13StatDurations(f, StatDurations) })
+	}
 	// the update path: further generations built from the same document and from the variant
 	// inherit from the running instance, serve the requests and replace it
 	for gi, d := range docs {
@@ -945,6 +949,10 @@ func serveFilter(f filters.Filter, spec filters.Spec, reqs []Req, obs *Obs, at s
 		}
 	}
 }
+
+// StatDurations: request durations across (and beyond) the range of pkg/util/sampler.
+var StatDurations = []time.Duration{0, 1, time.Millisecond, 999 * time.Millisecond, time.Second, 10 * time.Second, 100 * time.Second,
+	256 * time.Second, 257 * time.Second, 258 * time.Second, 5 * time.Minute, time.Hour, 1000 * time.Hour, 1<<63 - 1, -1, -time.Hour}
 
 // Settle gives goroutines spawned by a handler (mirror pool) a moment to run,
 // so that a crash is attributed to the case that caused it.
